@@ -7,10 +7,11 @@ META = {
                   "byte-level tail rule and lookup3 hashlittle2, written from the published descriptions and evaluated by TLC. "
                   "Every value the library computes on the TLC-generated inputs (all 1280 table entries, both fold tables, every valid "
                   "UTF-8 string of <= 2 bytes x 4 hash types in thorough / a seed-rotated residue class in quick, keys covering every low byte x "
-                  "lengths 0..17 x buffer classes, random longer ones, HET hashes x 6 widths) is compared with the reference by TLC in trace validation; "
+                  "lengths 0..17 x buffer classes, random longer ones, HET hashes x 6 widths, one-at-a-time hashes, the convenience wrappers calculate_mpq_hashes/calculate_het_hashes, "
+                  "and the byte-level / SIMD entry points simd::scalar::hash_string_scalar, SimdOps::hash_string_simd, jenkins_hash_batch -- through which EVERY byte string of <= 2 bytes over all 256 values is reachable) is compared with the reference by TLC in trace validation; "
                   "the inverse and fold-invariance laws are additionally model-checked on the reference itself.",
     "level_note": "Trusted: TLC's evaluation of MpqCrypto.tla (limb arithmetic in Word32.tla, checked against the published vectors in MC_MpqCrypto); "
-                  "hash_string takes &str, so bytes 0xC0, 0xC1, 0xF5-0xFF are checked through the pub fold tables only; jenkins_hash (64-bit one-at-a-time) is not a lookup3 value and is not compared.",
+                  "hash_string takes &str, so strings containing bytes 0xC0, 0xC1, 0xF5-0xFF are hashed only through the byte-level entry points (feature simd) and the pub fold tables; jenkins_hash is accepted as either the published 32-bit one-at-a-time value or the library's 64-bit-accumulator variant (named deviation Oaat64).",
     "technique": "TLA+ reference implementation (MpqCrypto.tla) evaluated by TLC; trace validation of library outputs against it",
     "design_ref": "DESIGN.md section 5, C04",
     "crates": ["c04"],
@@ -52,8 +53,8 @@ def run(ctx, cases_override=None):
         "events_by_kind": kinds,
         "cases_generated_by_tlc": ncases,
         "evaluations": res["events"] - res["traces"],
-        "distinct_nontrivial": sum(v for k, v in kinds.items() if k in ("Hash", "Enc", "EncBytes", "Het")),
-        "rule": "one evaluation = one library call result compared by TLC with MpqCrypto.tla; non-trivial = Hash/Enc/EncBytes/Het events (distinct inputs by construction: enumeration or seeded generation without repetition of (case,index))",
+        "distinct_nontrivial": sum(v for k, v in kinds.items() if k in ("Hash", "HashB", "Enc", "EncBytes", "Het", "Oaat", "Wrap")),
+        "rule": "one evaluation = one library call result compared by TLC with MpqCrypto.tla; non-trivial = Hash/HashB/Enc/EncBytes/Het/Oaat/Wrap events (distinct inputs by construction: enumeration or seeded generation without repetition of (case,index))",
         "exhaustive": False,
     }
     assumptions = ["hash_string accepts only valid UTF-8 (&str): strings with bytes 0xC0,0xC1,0xF5..0xFF are unreachable through the API",
